@@ -150,6 +150,23 @@ _add5("C12", "Scheduler locks are balanced (L1); Close closes the channel a bloc
 _add5("C14", "AuthPlain verifies part 1 of the looked-up value under the verifier selected by part 0; create / set-password succeed only after the table accepted the hash of the supplied password; create cannot replace existing credentials (R3c).")
 _add5("C15", "The 'found' flag of the translation lookup is set on every path; the answer of a lookup that found nothing is no entitlement.")
 _add5("C19", "The pool lock is balanced (L1); a receive that reports 'closed' yields no connection (R2b); on the user side the pool's answer is asserted only when non-nil and a connection taken or opened is recorded for Close or closed on every path (R7).")
+# ---- fourth round: rules prompted by the third set of independently seeded changes (DESIGN.md §R.11)
+def _add6(id, text_extra):
+    tech, text, note, ref = CLAIMED[id]
+    CLAIMED[id] = (tech, text + " Fourth round: " + text_extra, note, ref + ", §R.11")
+_add6("C01", "what smtpconn.C.Close returns never derives from the QUIT command's error (a failed QUIT after the final dot is not a failed delivery) (R6).")
+_add6("C02", "a spool file that is synced is written directly or through a buffering writer flushed – not by defer – on every path before that Sync (R1c).")
+_add6("C04", "a check / modifier group obtained from a directive is merged into a block element by element, its slice is never kept (named groups are shared) (R5b); the two lookup-key functions return only IDNA-decoded, NFC-normalised, lower-cased values and are pure (C17.R3/R4 evaluated as R6).")
+_add6("C05", "what PrepareDomain / PrepareConn leave in a policy's per-message object for CheckMX / CheckConn is assigned afresh on every call; a skipping path is guarded by configuration only (R9).")
+_add6("C06", "the stage functions record their stage for replay on every path (checkConnSender: sender and mailFromReceived before any return; checkRcpt: the recipient on every path after the states were obtained) (R4d); no DeliveryTarget.Start copies the message metadata – the quarantine verdict is written to that object later (R5).")
+_add6("C07", "in internal/dmarc two computed strings are never compared byte-wise and no computed string is used as a prefix / suffix pattern; isAligned answers true only as EqualFold(from, auth) or EqualFold(org(from), org(auth)) (R7).")
+_add6("C09", "the pipeline's original-recipient table is written under the variable handed to the target whenever it differs from the client's spelling (C18.R8 evaluated as K7).")
+_add6("C10", "queueDelivery.AddRcpt accepts only after appending the unmodified parameter to the pending list (R5); partialError.SetStatus files a failure under the key it was called with (R6).")
+_add6("C11", "the constructor handed to a keyed limiter table builds its result from scratch on every call: of captured variables it only ranges over, measures, indexes or calls the configured constructors (R8).")
+_add6("C12", "the entry that is dispatched is chosen only by the scan over the whole list and every timer is armed with that entry's remaining time (R2); the scheduler's stopped flag is read and written only by the scheduler's own methods (R4b).")
+_add6("C14", "the hash functions (signature of the compute / verify registries) never assign, re-slice, index or transform their password parameter (R3d); user-name keys that are parameters of new helpers are judged at the helpers' call sites.")
+_add6("C17", "in framework/address and framework/dns no byte of a string is converted to a rune or a string; character copies range over the string (R7).")
+_add6("C19", "every send / receive on a bucket channel is a case of a select with a default branch, a range over a bucket follows its close in the same function (R8); implementations of Conn.Usable close nothing (R9).")
 for _id in list(CLAIMED):
     tech, text, note, ref = CLAIMED[_id]
-    CLAIMED[_id] = (tech, text, note + "; rules are form-agnostic (named booleans, if/switch, loop forms, extracted helpers, renamed unexported functions and fields – DESIGN.md §R.7) and measured against a corpus of 22 behaviour-preserving refactorings (refactorings/, refacall.sh)", ref)
+    CLAIMED[_id] = (tech, text, note + "; rules are form-agnostic (named booleans, if/switch, loop forms, extracted helpers, renamed unexported functions and fields – DESIGN.md §R.7) and measured against a corpus of 34 behaviour-preserving refactorings (functions the reference tree did not have are read as part of their callers – §R.10) (refactorings/, refacall.sh)", ref)
